@@ -398,13 +398,20 @@ bool attachBelowShape(NifFile& nif, NiShape* shape, const std::string& type, uin
 	auto& hdr = nif.GetHeader();
 	if (!shape || isBuilderOnly(type) || type == "NiUnknown") return false;
 	// scene-graph objects (nodes, shapes, particle systems) do not hang below a shape
-	if (classDerivesFrom(classOfBlockType(type), "NiAVObject")) { ctx.probe("attach_skipped_scene_graph_type"); return false; }
+	auto partOfGeometry = [](const std::string& t) {
+		// scene-graph objects do not hang below a shape; skin and geometry-data blocks belong to exactly one shape and are tied
+		// to it by sizes (vertex counts, bone counts): a second, synthesised one is not a model any writer produces
+		static const char* bases[] = {"NiAVObject", "NiSkinInstance", "NiSkinData", "NiSkinPartition", "BSSkinInstance", "BSSkinBoneData", "NiGeometryData", "NiBoneContainer"};
+		for (auto b : bases) if (classDerivesFrom(classOfBlockType(t), b)) return true;
+		return false;
+	};
+	if (partOfGeometry(type)) { ctx.probe("attach_skipped_scene_graph_type"); return false; }
 	auto& allTypes = allBlockTypes();
 	if (std::find(allTypes.begin(), allTypes.end(), type) == allTypes.end()) return false;
 	static std::vector<std::string> all;
 	if (all.empty())
 		for (auto& t : allTypes)
-			if (!classDerivesFrom(classOfBlockType(t), "NiAVObject")) all.push_back(t);
+			if (!partOfGeometry(t)) all.push_back(t);
 	Rng r(seed * 7919 + 29);
 	// owners: the shape and the named blocks hanging off it (shader, alpha property, ...)
 	struct RootSlot { std::string decl; std::function<void(uint32_t)> set; uint32_t owner; };
